@@ -48,6 +48,8 @@ def run(ctx: Context) -> None:
     clause_b(ctx, idx)
     clause_c(ctx, idx)
     clause_c_order(ctx, idx, res)
+    ctx.rule("C02d", "every sampled component has its own draw: no draw result is stored under a data-dependent key (memoised randomness makes components with equal keys perfectly correlated)")
+    clause_d(ctx, idx)
 
 
 def clause_c_order(ctx: Context, idx, res) -> None:
@@ -293,3 +295,63 @@ def clause_c(ctx: Context, idx) -> None:
         ctx.violation("C02c", key, ap.file, found.lineno,
                       f"outcomes are concatenated as {parts}: the outcome of the current measurement must follow the outcomes of the "
                       f"earlier ones (program order), with one entry per measured quantity", norm(found)[:100])
+
+
+# ================================================================================================ (d)
+
+_DRAWS = {"random", "uniform", "normal", "choice", "choices", "integers", "randint", "multivariate_normal", "binomial", "multinomial",
+          "poisson", "standard_normal", "exponential", "geometric", "random_sample", "rand", "randn", "gamma", "beta"}
+
+
+def _keyed_draws(tree: ast.AST):
+    """(node, text) for draw calls whose result is stored in a mapping under a non-constant key."""
+    def is_draw(e: ast.AST) -> bool:
+        return any(isinstance(c, ast.Call) and isinstance(c.func, ast.Attribute) and c.func.attr in _DRAWS
+                   and ("rng" in norm(c.func.value).lower() or "random" in norm(c.func.value).lower()) for c in ast.walk(e))
+
+    for fn_node in ast.walk(tree):
+        if not isinstance(fn_node, (ast.FunctionDef, ast.AsyncFunctionDef)):
+            continue
+        dicts = set()
+        for n in ast.walk(fn_node):
+            tgt = val = None
+            if isinstance(n, ast.Assign) and len(n.targets) == 1:
+                tgt, val = n.targets[0], n.value
+            elif isinstance(n, ast.AnnAssign) and n.value is not None:
+                tgt, val = n.target, n.value
+            if isinstance(tgt, ast.Name) and (isinstance(val, (ast.Dict, ast.DictComp)) or (isinstance(val, ast.Call) and (dotted(val.func) or "") in ("dict", "defaultdict", "collections.defaultdict", "OrderedDict"))):
+                dicts.add(tgt.id)
+        for n in ast.walk(fn_node):
+            if isinstance(n, ast.Assign) and len(n.targets) == 1 and isinstance(n.targets[0], ast.Subscript) and isinstance(n.targets[0].value, ast.Name) \
+                    and n.targets[0].value.id in dicts and not isinstance(n.targets[0].slice, ast.Constant) and is_draw(n.value):
+                yield n, norm(n)[:90]
+            if isinstance(n, ast.DictComp) and is_draw(n.value) and not isinstance(n.key, ast.Constant):
+                yield n, norm(n)[:90]
+            if isinstance(n, ast.Call) and isinstance(n.func, ast.Attribute) and n.func.attr == "setdefault" and len(n.args) == 2 and is_draw(n.args[1]):
+                yield n, norm(n)[:90]
+
+
+def clause_d(ctx: Context, idx) -> None:
+    import os
+    fixture = os.path.join(os.path.dirname(os.path.dirname(os.path.dirname(os.path.abspath(__file__)))), "stubs", "keyed_draw_fixture.py")
+    tree = ast.parse(open(fixture).read())
+    fired = {f.name: len(list(_keyed_draws(ast.Module(body=[f], type_ignores=[])))) for f in tree.body if isinstance(f, ast.FunctionDef)}
+    if fired != {"cached": 1, "per_mode": 0}:
+        raise AnalysisError(f"C02d: the keyed-draw rule does not behave on its fixture ({fired})")
+    n_mod = 0
+    n_draw = 0
+    for m in idx.modules.values():
+        if not m.name.startswith("piquasso._simulators") and m.name != "piquasso._utils":
+            continue
+        n_mod += 1
+        n_draw += sum(1 for c in ast.walk(m.tree) if isinstance(c, ast.Call) and isinstance(c.func, ast.Attribute) and c.func.attr in _DRAWS
+                      and "rng" in norm(c.func.value).lower())
+        for node, text in _keyed_draws(m.tree):
+            fname = next((f.name for f in ast.walk(m.tree) if isinstance(f, ast.FunctionDef) and any(x is node for x in ast.walk(f))), "?")
+            key = f"{m.name}:{fname}|keyed-draw"
+            ctx.violation("C02d", key, m.path, node.lineno,
+                          f"`{text}` stores a random draw under a data-dependent key: every component that maps to the same key reuses the "
+                          f"same random numbers, so the marginals stay right but the joint law of the sample is wrong (components are "
+                          f"perfectly correlated)", text)
+    ctx.obligation("C02d", "simulators|no-keyed-draws", True, modules=n_mod, draws=n_draw)
+    ctx.require_floor("generator draw sites scanned for keyed storage", n_draw, 10)
